@@ -37,6 +37,42 @@ CLAIMED = {
         note="narrow two-sided bounds escape: known finding C19-F1 (Lean: narrow_bounds_escape, width_hypothesis_sharp); h>0 needed; "
              "the (x+dx)-x trick and float rounding are outside the model.",
         technique="Lean 4 proof (decide +kernel over regenerated tables + generic lemma) + exact model correspondence", ref="4/C19"),
+    "C16": dict(
+        text="Lean 4 theorems (Props.C16, Props.C16Cheb; 49 theorems) about a polymorphic hand model of polynomial.py: the coded masked "
+             "product IS the Lagrange basis; evaluation exact for every representable polynomial (with and without end points); the coded "
+             "derivative matrix gives the exact derivative at ALL nodes; Chebyshev recurrences = Mathlib T/U; restricted families vanish at "
+             "the dropped ends, are linearly independent and span; basis-change matrix nonsingular (round trips are the identity); "
+             "Gauss-Chebyshev-Lobatto rule exact for degree <= 2M-1 (new proof) and equal to what integrate computes; end weights "
+             "immaterial; linearity; axis-wise application commutes. The model is compared entry-wise with the real Polynomial class "
+             "for all grid sizes/directions/endpoint flags on every run, and exactness is searched on the real class.",
+        note="hand model tied by correspondence (rel 1e-11 on every matrix entry); np.linalg.inv is an oracle whose precondition "
+             "(nonsingularity) is proved; float conditioning of large M is outside the model.",
+        technique="Lean 4 proof over hand model + line-protocol correspondence", ref="4/C16"),
+    "C02": dict(
+        text="Lean 4 theorems (Props.C02) about the regenerated hydrodynamics formulas: the junction relations the code solves are "
+             "equivalent to equality of energy flux and momentum flux across the wall for ANY equation of state with w=e+p; the residual's "
+             "zero set is independent of the positive scale factor; a zero of the detonation residual plus the post-processing yields a "
+             "conserving state; c1 = -energy flux and c2 = momentum flux on both sides, velocityMid = -(v+ + v-)/2. Every real matching "
+             "(bag, template, traced potentials; three branches) is monitored by backward error against the exact conservation laws, with "
+             "call-site attribution (hybr convergence, template fallback) obtained by wrapping module names from outside.",
+        note="numerical solvers are oracles monitored by backward error <= 50(rtol+atol/T); hypotheses e+ != e-, e+ + p- != 0, vpovm>0 are "
+             "checked on each real matching (the sign-blind residual is reported in DESIGN.md).",
+        technique="Lean 4 proof over regenerated model + translator validation + backward-error monitor", ref="4/C02"),
+    "C05": dict(
+        text="Lean 4 theorems (Props.C05): the LTE post-processing returns (T+ gamma+)^2 = (T- gamma-)^2 and the 2x2 LTE residual has the "
+             "entropy-flux identity built in and vanishes exactly on conserving states; decision model of findvwLTE proved exhaustively "
+             "(interior value => final bracketed branch; 1 => one of three named conditions; 0 => mismatch negative at vMin). Real "
+             "findvwLTE runs on every EOS family are judged on the real matching (entropy, conservation, Tn boundary condition).",
+        note="'one sign over the whole window' is only sampled on a velocity grid (the code tests the end point) -- partial; solvers are oracles.",
+        technique="Lean 4 proof over regenerated model + decision-model proof + real-run monitor", ref="4/C05"),
+    "C06": dict(
+        text="Lean 4 theorems (Props.C06): returned v-^2 = max(min(vw^2, cs-^2(T-)),0) hence deflagration v-=vw<=cs-, hybrid v-=cs-; "
+             "detonation passes v+=vw, T+=Tn through; vpDerivNum is the numerator of d(v+^2)/dT- (quotient rule) and vanishes iff "
+             "cs-^2 = v-^2 (the Jouguet velocity is the Chapman-Jouguet point); orderings v+<v- etc. are equivalent to EOS inequalities. "
+             "Admissibility, classification, CJ point and fastestDeflag/slowestDeton under artificially tight phase ranges are monitored "
+             "on real matchings every run.",
+        note="truth of the EOS inequalities and monotonicity of T+-(vw) below fastestDeflag are physics of the sampled EOS (monitored, not proved).",
+        technique="Lean 4 proof over regenerated model + translator validation + real-run monitor", ref="4/C06"),
 }
 
 NOT_YET = "check not built yet in this round (design in DESIGN.md section 4); listed here until its Lean module and harness are committed"
